@@ -180,6 +180,18 @@ def check_real(case):
             continue
         outv = ef.transform(Xv)
         require(np.array_equal(np.asarray(outv), np.asarray(out)), "layout-differs", "%s input gives other columns" % lname, dict(facts, layout=lname))
+    # fit leaves the hyper-parameters as they were given, and the same object fitted again on a WIDER matrix (or its clone) is right again
+    gp = ef.get_params()
+    require((gp["kind"], int(gp["poly_degree"]), bool(gp["poly_interaction_only"]), bool(gp["poly_include_bias"])) ==
+            (cfg["kind"], cfg["degree"], cfg["interaction_only"], cfg["include_bias"]), "fit-changes-params", "get_params after fit: %r" % (gp,), facts)
+    Xw = np.hstack([X, (X[:, :1] + 1).astype(dt), (X[:, -1:] * 2).astype(dt)])
+    from sklearn.base import clone as _clone
+    for label_, obj in (("refit", ef), ("clone", _clone(ef))):
+        got_w = np.asarray(obj.fit(Xw).transform(Xw), dtype=np.float64)
+        ref_w = np.asarray(PolynomialFeatures(degree=cfg["degree"], interaction_only=cfg["interaction_only"], include_bias=cfg["include_bias"]).fit_transform(Xw), dtype=np.float64)
+        require(got_w.shape == ref_w.shape and np.array_equal(got_w, ref_w), "wider-matrix:" + label_,
+                "%s on a matrix with two more columns: shape %r, PolynomialFeatures %r" % (label_, got_w.shape, ref_w.shape), facts)
+    ef.fit(X)
     # scikit-learn asked for pandas containers: same columns, labelled with the names get_feature_names_out announces
     import sklearn
     with sklearn.config_context(transform_output="pandas"):
